@@ -306,6 +306,18 @@ def execute(job, logpath, seconds=120, keep_result=False):
     return out
 
 
+def tree_fingerprint():
+    """fingerprint of the pydra sources this process imports from (parent and children must run the same code)"""
+    import hashlib
+    import pydra.engine.job as pj
+    root = Path(pj.__file__).resolve().parents[1]
+    h = hashlib.blake2b(digest_size=8)
+    for f in sorted(root.rglob("*.py")):
+        st = f.stat()
+        h.update(f"{f.relative_to(root)}:{st.st_size}:{st.st_mtime_ns};".encode())
+    return h.hexdigest()
+
+
 # ------------------------------------------------------------------ child driver -----------------------------------
 def child_entry(entry):
     import cloudpickle as cp
@@ -357,12 +369,14 @@ def child_main(batch, start=0):
     with open(batch, "rb") as f:
         entries = pickle.load(f)
     origin = os.path.dirname(os.path.abspath(pj.__file__))
+    fp = tree_fingerprint()
     with open(str(batch) + ".out", "a") as out:
         for i, entry in enumerate(entries):
             if i < start:
                 continue
             rep = child_entry(entry)
             rep["pydra"] = origin
+            rep["tree"] = fp
             out.write(json.dumps(rep, default=repr) + "\n")
             out.flush()
 
